@@ -2,6 +2,7 @@ import Ecal.Lemmas.PriorityBook
 import Ecal.Lemmas.PriorityHeapPop
 import Ecal.Lemmas.PriorityHeapPush
 import Ecal.Lemmas.PriorityCascade
+import Ecal.Gen.C10
 /-!
 # C10 — priorities order execution; the first failing rule ends a trigger sequence
 
@@ -226,6 +227,27 @@ theorem failing_rule_was_started (sort : List Rule → List Rule) (rules : List 
     rw [h1 r hm] at this; cases this
   · rw [h5] at h; cases h
     simp [h4, h5]
+
+/-! ## facts re-extracted from engine/*.go on every run (lean/Ecal/Gen/C10.lean) -/
+
+/-- the shape of `Proc.step` (only `setFlag` writes the flag) is what the source says: every
+    assignment to `failOnFirstError` in package engine stores a parameter of the enclosing function
+    (a setter) — no function resets it to a constant, nobody takes its address. (`other` = a
+    right-hand side the extractor does not classify; the life-cycle cases decide then.) -/
+theorem gen_flag_written_only_by_setters :
+    Gen.C10.flagWriters.all (fun w => w.2 != "const") = true ∧ Gen.C10.flagAddressTaken = false := by
+  decide
+
+/-- the sequential bookkeeping model speaks for concurrent cascades because every function that
+    touches `incomplete` / `priorities` does so inside one `rm.lock` section (or is only called
+    from such a section, or is the constructor) -/
+theorem gen_bookkeeping_under_lock :
+    Gen.C10.bookAccess.all (fun a => a.2 != "unlocked") = true := by decide
+
+/-- `Book.current` (heap order re-established after `RemoveFirst`; skipped monitors not counted in
+    `descendantFinished`) is the variant the source has -/
+theorem gen_guards_present :
+    Gen.C10.reheap ≠ "not-reestablished" ∧ Gen.C10.skipGuard ≠ "skipped-counted" := by decide
 
 /-! ## the per-cascade queue -/
 
